@@ -958,3 +958,148 @@ def r_init_truth(e, R):
         raise AnalysisError(f"R-INIT-TRUTH: only {n_funcs} functions handling the `initializer` argument found")
     if not n_tests:
         R.ok("R-INIT-TRUTH", f"the {n_funcs} functions handling the `initializer` argument test it by identity only", None)
+
+
+# ---------------------------------------------------------------------------
+# R-CTX-NAME (C18): get_context(method) resolves the start method the caller named
+# ---------------------------------------------------------------------------
+
+def r_ctx_name(e, R):
+    """`get_context(method)` hands multiprocessing the name `method or <default set by set_start_method> or 'loky'`: an explicit
+    request always wins, the default only fills in for "not given".  The resolution statements are folded over the small domain of
+    (requested, default) names (a decision table; nothing of loky is executed)."""
+    CXQ = "loky.backend.context"
+    f = e.prog.func(f"{CXQ}:get_context")
+    mod = e.prog.modules[CXQ]
+    p0 = f.params[0] if f.params else None
+    if p0 is None:
+        raise AnalysisError("get_context has no method parameter")
+    defaults = {n.targets[0].id for n in func_nodes(mod.body_func) if isinstance(n, ast.Assign) and isinstance(n.targets[0], ast.Name)
+                and isinstance(n.value, ast.Constant) and n.value.value is None and n.targets[0].id.isupper()}
+    setter = [q for q, fn in e.prog.funcs.items() if q.startswith(CXQ + ":") and fn.globals_decl & defaults]
+    dnames = {g_ for q in setter for g_ in e.prog.funcs[q].globals_decl & defaults}
+    if len(dnames) != 1:
+        raise AnalysisError(f"context: the module-level default start method set by set_start_method not identified ({sorted(dnames)})")
+    dname = dnames.pop()
+
+    class _Done(Exception):
+        pass
+
+    def ev(x, env):
+        if isinstance(x, ast.Constant):
+            return x.value
+        if isinstance(x, ast.Name):
+            if x.id in env:
+                return env[x.id]
+            raise AnalysisError(f"get_context: reads `{x.id}` while resolving the start method")
+        if isinstance(x, ast.BoolOp):
+            v = None
+            for o in x.values:
+                v = ev(o, env)
+                if (isinstance(x.op, ast.Or) and v) or (isinstance(x.op, ast.And) and not v):
+                    return v
+            return v
+        if isinstance(x, ast.UnaryOp) and isinstance(x.op, ast.Not):
+            return not ev(x.operand, env)
+        if isinstance(x, ast.IfExp):
+            return ev(x.body, env) if ev(x.test, env) else ev(x.orelse, env)
+        if isinstance(x, (ast.Tuple, ast.List, ast.Set)):
+            return [ev(v, env) for v in x.elts]
+        if isinstance(x, ast.Compare) and len(x.ops) == 1:
+            l, r, op = ev(x.left, env), ev(x.comparators[0], env), x.ops[0]
+            tbl = {ast.Eq: lambda: l == r, ast.NotEq: lambda: l != r, ast.Is: lambda: l is r, ast.IsNot: lambda: l is not r,
+                   ast.In: lambda: l in r, ast.NotIn: lambda: l not in r}
+            if type(op) in tbl:
+                return tbl[type(op)]()
+        raise AnalysisError(f"get_context: `{norm(x)[:60]}` not interpretable while resolving the start method")
+
+    def run(stmts, env):
+        for s in stmts:
+            if isinstance(s, ast.Assign) and len(s.targets) == 1 and isinstance(s.targets[0], ast.Name):
+                env[s.targets[0].id] = ev(s.value, env)
+            elif isinstance(s, ast.If):
+                run(s.body if ev(s.test, env) else s.orelse, env)
+            elif isinstance(s, ast.Try):
+                run(s.body, env)
+            elif isinstance(s, ast.Return) and isinstance(s.value, ast.Call) and s.value.args:
+                env["\0result"] = ev(s.value.args[0], env)
+                raise _Done()
+            elif isinstance(s, (ast.Expr, ast.Pass)):
+                continue
+            else:
+                raise AnalysisError(f"get_context: statement `{norm(s)[:60]}` not interpretable while resolving the start method")
+
+    bad = None
+    n = 0
+    for req in (None, "", "loky", "loky_init_main", "spawn", "forkserver"):
+        for dflt in (None, "loky", "loky_init_main", "spawn"):
+            env = {p0: req, dname: dflt}
+            try:
+                run(f.body, env)
+            except _Done:
+                pass
+            got = env.get("\0result", "<no context requested>")
+            want = req or dflt or "loky"
+            n += 1
+            if got != want and bad is None:
+                bad = (req, dflt, got, want)
+    R.check(bad is None, "R-CTX-NAME", f"get_context: the start method is `method or {dname} or 'loky'` on all {n} (requested, default) pairs", f.short,
+            "method or default or 'loky'",
+            (f"get_context({bad[0]!r}) with set_start_method({bad[1]!r}) in effect asks multiprocessing for {bad[2]!r} instead of {bad[3]!r}: an explicit request "
+             "is overridden by the process-wide default (after set_start_method('loky_init_main') a pool asked for by the name 'loky' re-runs the "
+             "parent's __main__ in every worker; with 'spawn' it is not a loky pool at all) or the default is ignored") if bad else "", e.loc(f, f.node))
+    R.floor("R-CTX-NAME", 1)
+
+
+# ---------------------------------------------------------------------------
+# R-POPEN-API (C02, C06): what multiprocessing's Process methods expect of the Popen object loky supplies
+# ---------------------------------------------------------------------------
+
+def _stdlib_process_delegations():
+    """method of multiprocessing.process.BaseProcess -> names it uses on `self._popen` (read from the interpreter's own source)."""
+    import importlib.util as iu
+    spec = iu.find_spec("multiprocessing.process")
+    with open(spec.origin, encoding="utf-8") as fh:
+        tree = ast.parse(fh.read())
+    out = {}
+    for cls in [n for n in tree.body if isinstance(n, ast.ClassDef) and n.name == "BaseProcess"]:
+        for m in [n for n in cls.body if isinstance(n, ast.FunctionDef)]:
+            used = {x.attr for x in ast.walk(m) if isinstance(x, ast.Attribute) and isinstance(x.value, ast.Attribute) and x.value.attr == "_popen"
+                    and isinstance(x.value.value, ast.Name) and x.value.value.id == "self"}
+            if used:
+                out[m.name] = used
+    if not out:
+        raise AnalysisError("stdlib: BaseProcess no longer delegates to self._popen")
+    return out, spec.origin
+
+
+def r_popen_api(e, R):
+    """loky starts its workers with its own Popen class; the Process object handed to the executor is multiprocessing's
+    BaseProcess, whose methods delegate to `self._popen.<name>`.  Every BaseProcess method that loky itself calls on a worker
+    process must find that name on loky's Popen -- otherwise the call raises AttributeError on the thread that makes it (the
+    executor manager thread for kill / join / terminate)."""
+    a = e.anchors
+    deleg, origin = _stdlib_process_delegations()
+    R.trust(f"stdlib: BaseProcess delegations to self._popen read from {origin}: " + ", ".join(f"{k}->{sorted(v)}" for k, v in sorted(deleg.items())))
+    pc = e.prog.cls(f"{PP}:Popen")
+    provides = set(pc.methods)
+    for m in pc.methods.values():
+        if m.params:
+            provides |= {x.attr for x in func_nodes(m) if isinstance(x, ast.Attribute) and isinstance(x.ctx, ast.Store) and isinstance(x.value, ast.Name) and x.value.id == m.params[0]}
+    provides |= set(pc.attrs)
+    seen = {}
+    for f, c in e.all_calls():
+        if isinstance(c.func, ast.Attribute) and c.func.attr in deleg and e.objs(f, c.func.value) & a.process_objs:
+            seen.setdefault(c.func.attr, (f, c))
+    # properties read on worker processes (exitcode, sentinel, is_alive via methods above) delegate too
+    for nm in sorted(seen):
+        f, c = seen[nm]
+        missing = sorted(deleg[nm] - provides)
+        R.check(not missing, "R-POPEN-API", f"Process.{nm}() (called in {f.short}) finds {sorted(deleg[nm])} on loky's Popen", f.short, f"{norm(c)[:50]} -> _popen.{'/'.join(sorted(deleg[nm]))}",
+                f"`{norm(c)[:50]}` in {f.short} calls multiprocessing's Process.{nm}(), which delegates to `self._popen.{missing[0] if missing else ''}`; loky's posix Popen does "
+                f"not define it: the call raises AttributeError instead of acting on the worker" + (" (here: the fallback that kills the worker when its process tree "
+                "cannot be listed; the error escapes on the executor manager thread, the workers of a forced shutdown / broken pool survive)" if nm == "kill" else ""),
+                e.loc(f, c))
+    R.check({"join", "kill"} <= set(seen) or {"join", "terminate"} <= set(seen), "R-POPEN-API", "loky joins and kills/terminates its worker processes through the Process API",
+            "loky", f"methods used: {sorted(seen)}", "no call of Process.join / kill found on worker processes (anchors lost)", None)
+    R.floor("R-POPEN-API", 3)
